@@ -29,6 +29,8 @@ CONSTANTS Trunc32,     \* "code" | "as16" (spec mutant: 32-bit fields truncated 
           AnyOrder,    \* "code" | "errorFirst" (spec mutant: error tested before the marshaler interfaces)
           EqualsImpl,  \* "deep" = code (DeepEqual for interface payloads that may be uncomparable); "prefix" = pre-fix (==)
           NilPtr,      \* "code" | "zero" (spec mutant: nil pointer rendered as the zero value)
+          ZoneKey,     \* "pointer" = code (a Time field carries the *time.Location it was given); "name" = spec mutant (locations interned by name)
+          SliceUse,    \* "read" = code (a slice argument is only read); "compact" = spec mutant (no-op members squeezed out in place)
           Emit
 
 W == [w64 |-> 6, w32 |-> 4, w16 |-> 3, w8 |-> 2]
@@ -72,6 +74,19 @@ PackTime(t) == IF InRange(t) THEN [type |-> "TimeType", slot |-> ToSigned(t, W.w
                ELSE [type |-> "TimeFullType", slot |-> 0, full |-> t]
 UnpackTime(f) == IF f.type = "TimeType" THEN f.slot ELSE f.full
 TimeExact == \A t \in Instants : UnpackTime(PackTime(t)) = t
+\* the zone travels with the instant. Zones are identified by their rules: two zones may share a name (every
+\* numeric offset parsed by time.Parse is unnamed; abbreviations such as EST are ambiguous). z1 is any zone a
+\* Time field was built for earlier in the process.
+Zones == {[name |-> n, off |-> o] : n \in {"", "EST"}, o \in {-5, 2, 10}}
+ZoneDelivered(z1, z2) == IF ZoneKey = "pointer" \/ z1.name # z2.name THEN z2 ELSE z1
+ZoneExact == \A z1, z2 \in Zones : ZoneDelivered(z1, z2).off = z2.off
+\* a slice handed to a constructor stays the caller's: Dict / Any([]Field) deliver the members that are not
+\* no-ops and leave the list as it was ("x" marks a no-op member such as Skip or Error(nil))
+Lists == UNION {[1..n -> {"x", "a", "b"}] : n \in 0..3}
+Squeeze(l) == SelectSeq(l, LAMBDA m : m # "x")
+AfterCall(l) == IF SliceUse = "read" THEN l
+                ELSE LET k == Squeeze(l) IN [i \in 1..Len(l) |-> IF i <= Len(k) THEN k[i] ELSE l[i]]
+CallerSliceIntact == \A l \in Lists : AfterCall(l) = l
 
 \* ---- nil handling -----------------------------------------------------------
 PtrCtors == {"Boolp", "Complex128p", "Complex64p", "Float64p", "Float32p", "Intp", "Int64p", "Int32p", "Int16p", "Int8p", "Stringp",
